@@ -44,6 +44,9 @@ int do_act(string a) {
   case "remove_call_out": "/c09/co"->rm(); break;
   case "hb_off": set_heart_beat(0); L("hboff " + ME); PLAN->hb_off(); break;
   case "ed": ed("/c09/scratch.txt"); break;
+  case "hb_reenable": PLAN->hb_reenable(); break;
+  case "hb_destruct": PLAN->hb_destruct(); break;
   }
+  if (h == "hb_reenable" || h == "hb_destruct") { T("verb_end"); }   // second fault in the same task, after the action
   return PLAN->query_hret();
 }
